@@ -42,7 +42,7 @@ Print Assumptions C19_sink_table_obligations.
 
 (* the modelled functions, online: no host print, no eval / exec of user text in any trace
    of execute_vyxal (input parsing, body made of prints, E, dagger, E-dot, error capture,
-   implicit output) *)
+   implicit output under its own try) *)
 Theorem C19_model : forall m s, online m = true -> clean (execute_trace m s) = true.
 Proof. exact execute_clean. Qed.
 Print Assumptions C19_model.
@@ -76,21 +76,19 @@ Theorem C19_model_vyexec : forall m k e, In e (vy_exec_trace m k) -> e = VyExec.
 Proof. exact vy_exec_only_vyxal. Qed.
 Print Assumptions C19_model_vyexec.
 
-(* errors: with a final value whose printing succeeds (or no implicit output) nothing
-   propagates online, and a failing transpile / raising body ends in ErrRecord; Exit *)
-Theorem C19_errors_partial : forall m s, online m = true -> final_prints s = true ->
-  no_raise (execute_trace m s) = true.
+(* errors are reported in the error record instead of propagating: in online mode no trace
+   of execute_vyxal contains Raise -- for every scenario (inputs, flags, body, transpile
+   outcome, final value whose printing succeeds or raises) *)
+Theorem C19_errors : forall m s, online m = true -> no_raise (execute_trace m s) = true.
 Proof. exact execute_errors_recorded. Qed.
-Print Assumptions C19_errors_partial.
+Print Assumptions C19_errors.
 
+(* and a failing transpile, a raising body, or a raising flag post-processing / implicit
+   output all end the trace with the error record followed by sys.exit *)
 Theorem C19_errors_captured : forall m s, online m = true ->
-  (sc_transpile_ok s = false \/ exists b, sc_transpile_ok s = true /\ sc_run s = RunRaises b) ->
+  (sc_transpile_ok s = false
+   \/ (exists b, sc_transpile_ok s = true /\ sc_run s = RunRaises b)
+   \/ (exists b, sc_transpile_ok s = true /\ sc_run s = RunOk b /\ sc_implicit s = true /\ sc_final s = None)) ->
   exists pre, execute_trace m s = pre ++ [ErrRecord; Exit].
 Proof. exact execute_capture_tail. Qed.
 Print Assumptions C19_errors_captured.
-
-(* without that hypothesis the claim is false in the faithful model: the implicit output
-   runs after the try/except of execute_vyxal (finding C19:implicit-output-raises) *)
-Theorem C19_errors_refuted : exists s, no_raise (execute_trace {| online := true |} s) = false.
-Proof. exact errors_always_recorded_refuted. Qed.
-Print Assumptions C19_errors_refuted.
